@@ -289,16 +289,32 @@ func (c *EvalCtx) eval(e *Expr) TVal {
 		if (e.Op == "forall" && c.pol > 0) || (e.Op == "exists" && c.pol < 0) {
 			ranges = nil
 		}
+		pats := ""
+		for _, group := range e.Trig {
+			var ts []string
+			for _, te := range group {
+				tv := sub.eval(te)
+				ts = append(ts, tv.T)
+			}
+			pats += " :pattern (" + strings.Join(ts, " ") + ")"
+		}
+		c.errs = append(c.errs, sub.errs...)
+		wrap := func(b string) string {
+			if pats == "" {
+				return b
+			}
+			return "(! " + b + pats + ")"
+		}
 		if e.Op == "forall" {
 			if len(ranges) > 0 {
 				body = implies(and(ranges...), body)
 			}
-			return c.mk("(forall ("+strings.Join(decl, " ")+") "+body+")", sBool, types.Typ[types.Bool])
+			return c.mk("(forall ("+strings.Join(decl, " ")+") "+wrap(body)+")", sBool, types.Typ[types.Bool])
 		}
 		if len(ranges) > 0 {
 			body = and(append(ranges, body)...)
 		}
-		return c.mk("(exists ("+strings.Join(decl, " ")+") "+body+")", sBool, types.Typ[types.Bool])
+		return c.mk("(exists ("+strings.Join(decl, " ")+") "+wrap(body)+")", sBool, types.Typ[types.Bool])
 	case "binary":
 		return c.evalBinary(e)
 	}
@@ -506,6 +522,18 @@ func (c *EvalCtx) evalSel(e *Expr) TVal {
 					if o := ip.Scope().Lookup(e.Name); o != nil {
 						if cst, ok := o.(*types.Const); ok {
 							return c.constVal(cst)
+						}
+						if gv, ok := o.(*types.Var); ok {
+							// package-level variable of an imported package: its current value
+							if sp := fr.eng.prog.Package(ip); sp != nil {
+								if g := sp.Var(gv.Name()); g != nil && c.f != nil {
+									gval := fr.val(c.f, c.st, g)
+									return TVal{Val: fr.load(c.st, gval.Addr, gv.Type()), Type: gv.Type()}
+								} else if g != nil {
+									gval := fr.val(fr.topFrame, c.st, g)
+									return TVal{Val: fr.load(c.st, gval.Addr, gv.Type()), Type: gv.Type()}
+								}
+							}
 						}
 					}
 				}
@@ -806,6 +834,29 @@ func (c *EvalCtx) evalCall(e *Expr) TVal {
 		v := c.eval(e.Args[0])
 		w.declFun("time_ns", fmt.Sprintf("(declare-fun time_ns (%s) Int)", w.SortOf(v.Type)))
 		return c.mk("(div (time_ns "+v.T+") 1000000000)", sInt, ti)
+	case "prev":
+		// prev(p): the reference p (evaluated now) viewed in the entry state: prev(p).f is the value the field had on entry
+		v := c.eval(e.Args[0])
+		if c.old == nil {
+			c.errf("prev() not available here")
+			return v
+		}
+		v.Snap = c.old
+		return v
+	case "deref":
+		// deref(p): the value p points to
+		v := c.eval(e.Args[0])
+		if v.Type == nil {
+			c.errf("deref() of untyped value")
+			return c.mk("0", sInt, ti)
+		}
+		pt, ok := v.Type.Underlying().(*types.Pointer)
+		if !ok {
+			c.errf("deref() of non-pointer")
+			return c.mk("0", sInt, ti)
+		}
+		r := fr.load(c.stOf(v), ObjAddr{Ref: v.T, Elem: pt.Elem()}, pt.Elem())
+		return TVal{Val: r, Type: pt.Elem()}
 	case "bitlen":
 		v := c.eval(e.Args[0])
 		return c.mk(sel(fr.heapCur(c.stOf(v), w.heap("BitLen", "(Array Int Int)")), "(s-arr "+v.T+")"), sInt, ti)
